@@ -48,7 +48,7 @@ def exTmF : Tmpl :=
     cacheArgs := [("type".toList, .str "tt".toList), ("foo".toList, .str "tf".toList), ("zed".toList, .str "tz".toList)]
     enabled0 := true
     page := { exPage false with attrs := [("cache_type".toList, [.lit "tp".toList]), ("cache_foo".toList, [.lit "pf".toList])] }
-    body := .tick "page".toList (.inv exF (some [.var "x".toList]) false exFBody .nil) }
+    body := .tick "page".toList (.inv exF (some [.var "x".toList]) .plain exFBody .nil) }
 
 def exWF : World (Option ArgV) := { be := exBeType, tmpls := [exTmF] }
 
